@@ -2437,6 +2437,7 @@ func (a *Association) handleData(chunkPayload *chunkPayloadData) []*packet {
 	}
 
 	canPush := a.payloadQueue.canPush(chunkPayload.tsn)
+	duplicate := false
 	if canPush {
 		if !a.acceptPayloadData(chunkPayload) {
 			if state == shutdownSent {
@@ -2445,6 +2446,13 @@ func (a *Association) handleData(chunkPayload *chunkPayloadData) []*packet {
 
 			return nil
 		}
+	} else {
+		// Not acceptable: a duplicate (at or below the cumulative point, or already
+		// received) or beyond the tracking window. push() records a duplicate in the
+		// list reported by the next SACK and never stores anything in this case.
+		nDups := len(a.payloadQueue.dupTSN)
+		a.payloadQueue.push(chunkPayload.tsn)
+		duplicate = len(a.payloadQueue.dupTSN) > nDups
 	}
 
 	// Upon the reception of a new DATA chunk, an endpoint shall examine the
@@ -2456,7 +2464,8 @@ func (a *Association) handleData(chunkPayload *chunkPayloadData) []*packet {
 	expectedTSN := a.peerLastTSN() + 1
 	gapDetected := sna32GT(chunkPayload.tsn, expectedTSN)
 
-	sackNow := chunkPayload.immediateSack || gapDetected
+	// RFC 9260 section 6.2: a duplicate DATA chunk is acknowledged without delay.
+	sackNow := chunkPayload.immediateSack || gapDetected || duplicate
 	if state == shutdownSent {
 		sackNow = true
 	}
